@@ -9,7 +9,7 @@ def presented (l : Line) : _root_.C04.Presented :=
 
 def tokOf (l : Line) (label : String) (refresh : Bool) : _root_.C08.Tok :=
   { label := label, client := str l "client", subject := str l "sub", audience := list l "aud", issuer := str l "iss",
-    refresh := refresh, grant := str l "grant" }
+    refresh := refresh, grant := str l "grant", exp := int l (if refresh then "rtexp" else "exp") }
 
 /-- the observable events of a line (a token response hands out an access token and possibly a refresh token) -/
 def evsOf (l : Line) : List _root_.C08.Ev :=
@@ -18,9 +18,9 @@ def evsOf (l : Line) : List _root_.C08.Ev :=
   | "expire" => [.expired (str l "label")]
   | "userinfo" => [.userinfo (str l "iss") (str l "tok") (nat l "o.status") (opt l "o.sub")]
   | "introspect" => [.introspect (str l "iss") (presented l) (str l "tok") (nat l "o.status") (bool l "o.active") (list l "o.members")]
-  | "revoke" => [.revoke (str l "iss") (presented l) (str l "tok") (nat l "o.status") (bool l "o.performed")]
+  | "revoke" => [.revoke (str l "iss") (presented l) (str l "tok") (nat l "o.status") (bool l "o.performed") (str l "fault" != "") (!(has l "o.effect") || bool l "o.effect")]
   | "endsession" => [.endSession (str l "iss") (str l "sub") (str l "client") (nat l "o.status") (bool l "o.terminated")]
-  | "exchange" => [.exchange (str l "iss") (str l "tok") (bool l "o.success")]
+  | "exchange" => [.exchange (str l "iss") (str l "tok") (bool l "o.success") (has l "atok") (str l "atok")]
   | "refresh" => [.refresh (str l "iss") (str l "tok") (bool l "o.success") (bool l "o.rotated")]
   | _ => []
 
@@ -38,7 +38,7 @@ def monStep (m : _root_.C08.MonState) (l : Line) : _root_.C08.MonState × Option
       (_root_.C08.update acc.1 now0 e, acc.2 <|> v)) (m, none)
 
 def cls (l : Line) : String :=
-  s!"{str l "op"}:{str l "p.kind"}:{if bool l "cross" then "x-issuer" else ""}:{nat l "o.status"}:{if bool l "o.active" then "active" else ""}{if bool l "o.success" then "accepted" else ""}"
+  s!"{str l "op"}{if has l "atok" then "+actor" else ""}:{str l "p.kind"}:{if bool l "cross" then "x-issuer" else ""}:{nat l "o.status"}:{if bool l "o.active" then "active" else ""}{if bool l "o.success" then "accepted" else ""}"
 
 def stepMon (m : _root_.C08.MonState) (l : Line) : _root_.C08.MonState × String :=
   let (m', v) := monStep m l
